@@ -311,7 +311,7 @@ def run_job(job, tier, inc_extra, keep_dir=None):
                 res.status, res.reason, res.log_tail = 'undecided', 'goto-instrument --add-library failed', out[-3000:]
                 return res
             a = a2
-        gi = ['goto-instrument', '--dfcc', job.entry]
+        gi = ['goto-instrument'] + (['--no-malloc-may-fail'] if '--no-malloc-may-fail' in job.flags else []) + ['--dfcc', job.entry]   # dfcc links (and constant-folds) the malloc model here
         if job.enforce:
             gi += ['--enforce-contract-rec' if job.rec else '--enforce-contract', job.enforce]
         for g in job.replace:
@@ -473,7 +473,7 @@ def concretize(job, tier, inc_extra):
         rc, out, _ = run(cc_base(inc_extra, scratch) + dflags + job.extra_cc + ['--function', job.entry, h, '-o', a], 300)
         if rc != 0:
             return None, None, defs
-        gi = ['goto-instrument', '--dfcc', job.entry]
+        gi = ['goto-instrument'] + (['--no-malloc-may-fail'] if '--no-malloc-may-fail' in job.flags else []) + ['--dfcc', job.entry]   # dfcc links (and constant-folds) the malloc model here
         if job.enforce:
             gi += ['--enforce-contract-rec' if job.rec else '--enforce-contract', job.enforce]
         for g in job.replace:
